@@ -468,7 +468,9 @@ def valid_host(rh):
             return True
         except ValueError:
             return bool(re.match(r"^v[0-9a-fA-F]+\.[A-Za-z0-9\-._~!$&'()*+,;=:]+\Z", rh))
-    return bool(re.match(r"^(?:[a-z0-9\-._~!$&'()*+,;=]|%[0-9a-fA-F]{2})*\Z", rh))
+    # upper-case letters are valid reg-name characters (RFC 3986): a STORED upper-case host of an auto-encoded URL (the callers skip
+    # encoded=True handles before they get here) is a syntactically valid host that the second parse lower-cases - not a reason to skip
+    return bool(re.match(r"^(?:[A-Za-z0-9\-._~!$&'()*+,;=]|%[0-9a-fA-F]{2})*\Z", rh))
 
 
 def classify_c03(v, h, text):
@@ -507,7 +509,10 @@ def c03_streams(rng, tier, budget):
     st = Stream()
     for s in ["a%3Ab", "a%3Ab/c", "./a:b", "http://h/a%3Ab", "//h/a:b", "x/a%3Ab", "%3A", "http://[v1.a:b]/", "http://[v1.a]/", "http://H:80/", "HTTP://Ü.com:80/%7e",
               # a path that starts with '//' and no authority in front of it: the string form needs the explicit empty authority
-              "////srv/x", "//", "///", "////", "x:////a", "/.//a", "a/b:c", "a/b:c?k=v#f"]:
+              "////srv/x", "//", "///", "////", "x:////a", "/.//a", "a/b:c", "a/b:c?k=v#f",
+              # hosts only the IDNA-2003 fallback codec encodes ('_', '--' in positions 3-4, symbols) with UPPER-case ASCII labels next to the
+              # non-ASCII one: the stored host must already be the lower-case text a second parse produces
+              "http://A_b.é.com/p", "http://Ab--cd.é.com/p", "http://WWW.☃.Example.COM/p", "http://My_Svc.bücher.de/", "//I❤.WS"]:
         h = st.new(s)
         st.obs_all(h, C03_OBS)
         r = st.rt(h)
@@ -917,6 +922,19 @@ def c06_oracle(full, io, b):
                     continue
                 if got != exp:
                     out.append(fail(v, h, acc, f"{f[3]}({t!r}) reads back as {acc} = {got!r}", "readback"))
+        if f[0] == "mod" and f[3] == "with_query" and len(f) > 4 and f[4][:1] in "PMKDU":
+            # "supplied values read back unchanged": with_query(pairs / mapping) reads back through .query as exactly the supplied pairs
+            try:
+                from props_b import expand_arg
+                e_ = expand_arg(f[4])
+            except Exception:
+                e_ = ("error",)
+            qa = v.get(h, "query")
+            if e_[0] == "pairs" and qa is not None and not qa.startswith("!") and all(no_surr(k_ + x_) for k_, x_ in e_[1]):
+                body_ = qa.partition(":")[2]
+                got_ = [(dec(it.partition("=")[0]), dec(it.partition("=")[2])) for it in (body_.split(",") if body_ else [])]
+                if got_ != [(k_, x_) for k_, x_ in e_[1]]:
+                    out.append(fail(v, h, "query", f"with_query({e_[1]!r}) reads back as query = {got_!r}", "readback"))
         if f[0] == "mod" and f[3] == "with_name":
             t = dec(f[4])
             a = v.get(h, "name")
